@@ -32,7 +32,7 @@ from xonsh.procs.pipelines import (
 from xonsh.procs.pipes import PipeChannel
 from xonsh.procs.posix import PopenThread
 from xonsh.procs.proxies import ProcProxy, ProcProxyThread
-from xonsh.procs.readers import ConsoleParallelReader
+from xonsh.procs.readers import ConsoleParallelReader, is_session_stream
 
 
 def _has_path_component(name):
@@ -277,13 +277,7 @@ def safe_close(x):
     """Safely attempts to close an object."""
     if not isinstance(x, io.IOBase):
         return
-    if (
-        x is sys.stdin
-        or x is sys.stdout
-        or x is sys.stderr
-        or x is sys.__stdout__
-        or x is sys.__stderr__
-    ):
+    if is_session_stream(x):
         # a stream slot may hold the session's own stream (``$(cmd o>e)``
         # puts sys.stderr into the stdout slot): never close those
         return
